@@ -1,7 +1,7 @@
 """Contracts for txn_types.py and the two enum maps of teal_enums.py (DESIGN.md §6.6; C07, C01, C17)."""
 from pyvc.dsl import (contract, requires, ensures, must_fail, And, Or, Not, Implies, If, Iff, Eq, forall, exists,
                       IsInstance, In, IsInt, IsStr, AsInt, AsStr)
-from pyvc.values import T, V
+from pyvc.values import T, V, VBool
 from spec.avm_axioms import ev
 from spec.ghost import keydef, keyfld_f
 import contracts.helpers  # noqa: F401
@@ -163,3 +163,74 @@ def _name_val(s, names):
 
 _mk_enum_contract("transaction_type_to_tealer_type", TXN_MAP, TXN_NAMES)
 _mk_enum_contract("oncompletion_to_tealer_type", OC_MAP, OC_NAMES)
+
+
+# ---- precision on direct checks (C03): a comparison of OnCompletion / TypeEnum with a constant, in either operand order,
+# excludes the kinds it really excludes ----------------------------------------------------------------------------------------
+def _spelled_ok(ins, names):
+    """the literal is a number, or one of the names of the compared field's own enumeration (`int UpdateApplication` next to
+    TypeEnum is valid TEAL but not a way of *naming a transaction type*)"""
+    if isinstance(ins, V):
+        from pyvc.dsl import current
+        from pyvc.loader import class_table
+        from pyvc.values import VRef, VStr
+        ex, st = current().ex, current().st
+        C = class_table().cls("Int")
+        val, st2 = ex.read_field(VRef(ins.term, C, ex), C, "_value", st)   # Int and PushInt share the layout of `_value`
+        P = class_table().cls("PushInt")
+        val2, st3 = ex.read_field(VRef(ins.term, P, ex), P, "_value", st2)
+        st.pc[:] = st3.pc
+        def ok(u):
+            return Or(*[And(VBool(g), Or(*[Eq(a, n) for n in names])) if isinstance(a, VStr) else VBool(g) for g, a in u.alts])
+        return If(IsInstance(ins, "Int"), ok(val), ok(val2))
+    val = getattr(ins, "value", None)
+    return isinstance(val, int) or val in names
+
+
+def _const_of(v, x):
+    """(is a literal push of the fragment, its value) for operand x"""
+    from contracts.fee_field import _known_ins
+    from contracts.helpers import _ins_sem
+    from spec.avm_axioms import VAL
+    from spec.native import native_ev
+    ins = _known_ins(x)
+    if ins is None:
+        return False, 0
+    if isinstance(ins, V):
+        _ins_sem(ins, v)
+        from pyvc.values import VInt
+        return And(IsInstance(x, "KnownStackValue"), IsInstance(ins, ("Int", "PushInt"))), VInt(VAL(v.term, ins.term, 0))
+    return type(x).__name__ == "KnownStackValue" and type(ins).__name__ in ("Int", "PushInt"), native_ev(v, x)
+
+
+def _excludes(fname, k, label):
+    def f(key, ins_stack_value, result, v):
+        from spec.ghost import is_field_read_f
+        from contracts.fee_field import _arg
+        sv = ins_stack_value
+        a0, a1 = _arg(sv, 0), _arg(sv, 1)
+        out = []
+        for fa, ca in ((a0, a1), (a1, a0)):
+            isc, c = _const_of(v, ca)
+            lo, hi = (1, 6) if fname == "TypeEnum" else (0, 5)   # constants that denote a value of the field
+            names = TXN_NAMES if fname == "TypeEnum" else OC_NAMES
+            from contracts.fee_field import _known_ins
+            cins = _known_ins(ca)
+            direct = And(IsInstance(sv.instruction, ("Eq", "Neq")), IsInstance(fa, "KnownStackValue"),
+                         is_field_read_f(key, fa, fname), isc, c >= lo, c <= hi,
+                         _spelled_ok(cins, names) if cins is not None else False)
+            is_eq = IsInstance(sv.instruction, "Eq")
+            true_excl = Or(And(is_eq, Not(c == k)), And(Not(is_eq), c == k))
+            false_excl = Or(And(is_eq, c == k), And(Not(is_eq), Not(c == k)))
+            out.append(Implies(direct, lambda: And(Implies(true_excl, Not(In(_label(label), result[0]))),
+                                                   Implies(false_excl, Not(In(_label(label), result[1]))))))
+        return And(*out)
+    return f
+
+
+c = contract(F + "_get_asserted_transaction_types")
+for fname, k, label in (("OnCompletion", 4, "ApplUpdateApplication"), ("OnCompletion", 5, "ApplDeleteApplication"),
+                        ("TypeEnum", 1, "Pay"), ("TypeEnum", 4, "Axfer")):
+    ensures(c, f"excludes_{label}", _excludes(fname, k, label), tags=["C03", "C07", "C15"],
+            note="a direct comparison of the field with a constant -- by name or number, either operand order -- removes the "
+                 "kind it excludes (precision, C03; spelling independence, C15)")
